@@ -80,6 +80,19 @@ class FailModel(engine.RealModel):
         plugins = ('harness.plugin_fail',)
         if src == 'NoData':
             self.m = xl.compile_wb(cells, arrays=arrays, plugins=plugins, cycles=cycles)
+        elif src == 'Loaded':
+            # a model which was saved and read back: it holds python code only
+            path = os.path.join(workdir, f'loaded_{tag}.yml')
+            if not os.path.exists(path):
+                m0 = xl.compile_wb(cells, arrays=arrays, plugins=plugins, cycles=cycles)
+                n = W.nodes(wb)
+                for node in n['inputs'] + n['formulas'] + n['ranges'] + n['aliases']:
+                    try:            # every cell is in the saved model, the
+                        m0.evaluate(W.addr(node))    # failing ones included
+                    except Exception:       # noqa
+                        pass
+                m0.to_file(path)
+            self.m = ExcelCompiler.from_file(path, plugins=plugins)
         else:
             path = os.path.join(workdir, f'stored_{tag}.xlsx')
             if not os.path.exists(path):
@@ -450,6 +463,9 @@ def run(tier, seed):
             ('nested', 'NoData', ['B2'], ['B2'], False, 'plain', P, ['A1'], 0, seed, 3),
             ('capture', 'NoData', ['B1'], ['B1'], False, 'plain', P, ['A2'], 0, seed, 4),
             ('trimex', 'NoData', ['C2'], ['C2'], False, 'plain', P, ['A1'], 0, seed, 4),
+            # a model read back from a file, a plugin function which raises
+            ('capture', 'Loaded', ['B1'], ['B1'], False, 'plain', P, ['A2'], 0, seed, 1),
+            ('chain', 'Loaded', ['B1'], [], True, 'plain', P, ['A1'], 0, seed),
             # the reference a formula returns cannot be resolved
             ('chain', 'NoData', ['B1'], ['B1'], False, 'iterative', P, ['A1'], 0, seed, 5),
             ('nested', 'NoData', ['B2'], ['B2'], False, 'plain', P, ['A1'], 0, seed, 5),
